@@ -111,10 +111,14 @@ func init() {
 		Assumptions: []string{"go-shp's file writer and reader return the shape values they are given (identity on Parts/Points); NewPolyLine/flatten/BBox of go-shp are executed from their real SSA"},
 		Outside:     []string{"shapefile/DBF files, record order and number, all attribute clauses (integers, strings <=50 bytes, floats to 10 decimals, tag/name matching): they run through os files, go-shp's DBF code and reflect over user structs"},
 	})
+	projMerge := []string{}
+	for _, f := range []string{"adjust_lon", "adjust_lat", "sign", "asinz", "phi2z", "imlfn", "mlfn", "msfnz", "tsfnz", "qsfnz", "e0fn", "e1fn", "e2fn", "e3fn", "aeaPhi1z", "srat", "sinh", "cosh", "tanh"} {
+		projMerge = append(projMerge, ModPath+"/proj."+f)
+	}
 	reg(&Property{
-		ID: "C10", Pkgs: []string{"."}, Level: "model_checking",
+		ID: "C10", Pkgs: []string{".", "proj"}, Level: "model_checking",
 		Rule: "one evaluation = one explored path (geometry shape x index of the failing vertex, or SR pair x call history); non-trivial = path ends with all assertions discharged",
-		Opts: []HarnessOpt{{Prefix: "VH_C10_", IfConv: true, MaxUnwind: 40}},
+		Opts: []HarnessOpt{{Prefix: "VH_C10_", IfConv: true, MaxUnwind: 40}, {Prefix: "VH_C10_history", Mode: "U", IfConv: true, MaxUnwind: 60, MaxSteps: 50_000_000, Merge: projMerge}},
 		Bounds: map[string]string{
 			"geometries": "all eight types, <=2 members x <=2 vertices, collections nested to depth 1 (2 thorough); transformer failing at every vertex index or never",
 			"histories":  "<=3 transformer calls per history over the listed SR pairs",
